@@ -114,6 +114,7 @@ pub fn alphabet(u: Universe, contents: &[&[u8]], append_cap: usize, composites: 
         composites,
         observers: false,
         setters: false,
+        sessions: false,
     }
 }
 
